@@ -2,6 +2,7 @@ package simhook
 
 import (
 	"sync"
+	"sync/atomic"
 	"testing"
 )
 
@@ -93,4 +94,52 @@ func TestBlockedTasksAreRescheduled(t *testing.T) {
 		t.Fatal("no task was ever found blocked: the test does not exercise the path")
 	}
 	t.Logf("blocked tasks handled: %d", blocked)
+}
+
+// Tear-down (MaxSteps reached) while tasks are blocked in a real lock and
+// others wait on conditions: yield points no longer park, waits still do, and
+// a woken task must not take itself for the running one.
+func TestBlockedTasksDuringTearDown(t *testing.T) {
+	old := StallMillis
+	StallMillis = 20000
+	defer func() { StallMillis = old }()
+	for seed := uint64(1); seed <= 10; seed++ {
+		var mu sync.Mutex
+		flags := make([]atomic.Bool, 5)
+		total := 0
+		s := NewSched()
+		s.MaxSteps = 4 + int(seed)
+		s.Ready = func(kind, arg int) bool { return flags[arg].Load() }
+		for i := 0; i < 5; i++ {
+			i := i
+			s.Add(func(*Task) {
+				for k := 0; k < 2; k++ {
+					Yield(1)
+					mu.Lock()
+					Yield(2)
+					total++
+					Yield(3)
+					mu.Unlock()
+				}
+				if i > 0 {
+					WaitOn(1, i-1)
+				}
+				mu.Lock()
+				flags[i].Store(true)
+				mu.Unlock()
+				Yield(4)
+			})
+		}
+		tape := NewSearchTape(seed)
+		s.Choose = func(runnable []int, _ []int) (int, int) {
+			return runnable[tape.Draw("task", len(runnable))], 1 + tape.Draw("q", 2)
+		}
+		s.Run()
+		if s.Abandoned || s.Deadlocked {
+			t.Fatalf("seed %d: abandoned=%v deadlocked=%v", seed, s.Abandoned, s.Deadlocked)
+		}
+		if total != 10 || !flags[4].Load() {
+			t.Fatalf("seed %d: total=%d last flag=%v", seed, total, flags[4].Load())
+		}
+	}
 }
